@@ -111,7 +111,7 @@ def run_grid(W, rec):
                         n += 1
     for name, kind in INT_OPS.items():
         lim = V.LIMITS[kind]
-        for v in (0, 1, lim - 1, lim, lim + 1, lim * 253, 2 ** 64):
+        for v in (0, 1, lim - 1, lim, lim + 1, lim * 253, 2 ** 64, 2 ** 64 + 1, 2 ** 1023, 2 ** 1024, 10 ** 400, 10 ** 4000):
             hist = [("add_string", "x"), (name, v), (name, 0)]
             run_history(W, rec, hist)
             rec.case(hist)
